@@ -479,6 +479,47 @@ def judge(part, label, case, calls, expected):
 
 
 # ------------------------------------------------------------------------------ chain worker
+# a terminal is run unbatched, as the first statement(s) of a BatchQuery that a companion DML follows, and after that companion
+MODES = (None, 'batch-first', 'batch-second')
+NOT_BATCHABLE = ('select', 'count')
+COMPANION = 'inst update b[iff]'
+
+
+def companion():
+    for name, fn, opts in flat_makers():
+        if name == COMPANION:
+            return fn, opts
+    raise HarnessError('no DML maker %r' % COMPANION)
+
+
+def run_terminal(q, req, fr, tname, tfn, mode, comp):
+    """Run terminal tfn on query set q (unbatched or inside a 2-maker batch); returns the expected statements in order."""
+    s = world()['session']
+    if not mode:
+        exp = tfn(q, req, fr)
+    else:
+        from cassandra.cqlengine.query import BatchQuery
+        b = BatchQuery()
+        cfn, copts = comp
+        if mode == 'batch-first':
+            mine = tfn(q.batch(b), req, fr)
+            other = cfn(fr, b, copts)
+        else:
+            other = cfn(fr, b, copts)
+            mine = tfn(q.batch(b), req, fr)
+        if s.take():
+            raise HarnessError('a batched operation executed a statement before the batch ran: %s' % tname)
+        b.execute()
+        for e_ in mine:
+            if 'set' in e_:
+                e_['set_all_nonempty'] = 'empty' not in tname
+        return mine + other if mode == 'batch-first' else other + mine
+    for e_ in exp:
+        if 'set' in e_:
+            e_['set_all_nonempty'] = 'empty' not in tname
+    return exp
+
+
 def run_chains(args):
     prefixes, nmin, nmax, letters, long_only = args
     from cassandra.cqlengine import CQLEngineException
@@ -487,6 +528,7 @@ def run_chains(args):
     w = world()
     Q, s = w['Q'], w['session']
     A, T = alphabet(), terminals()
+    comp = companion()
     part = Part()
     refuse = (CQLEngineException, QueryOperatorException)
     for prefix in prefixes:
@@ -510,33 +552,38 @@ def run_chains(args):
                 for ti, (tname, tfn) in enumerate(T):
                     if long_only and tname not in LONG_TERMINALS:
                         continue
-                    fr, req = Fresh(), req0.copy()
-                    fr.n = fr0.n
-                    s.take()
-                    case = {'chain': list(chain), 'terminal': ti, 'names': names + [tname]}
-                    try:
-                        exp = tfn(q0, req, fr)
-                    except refuse as e:
-                        part.count('refused_by_cqlengine')
-                        part.outcome(('refused', tname, type(e).__name__))
-                        continue
-                    except HarnessError:
-                        raise
-                    except Exception as e:
-                        part.violation('C37/raises/%s/%s' % (tname.replace(' alone', ''), type(e).__name__),
-                                       '%r raised %r' % (names + [tname], e), case)
-                        continue
-                    part.count('chains')
-                    calls = s.take()
-                    for e_ in exp:
-                        if 'set' in e_:
-                            e_['set_all_nonempty'] = 'empty' not in tname
-                    judge(part, tname.replace(' alone', ''), case, calls, exp)
-                    if len(req.where) + len(req.iff) >= 2:
-                        part.count('distinct_nontrivial')      # every (chain, terminal) is enumerated once
-                    if len(chain) >= 2:
-                        part.sample({'chain': names + [tname], 'statements': [c.query for c in calls],
-                                     'params': [w['cqle'].plain_params(c.params) for c in calls]}, limit=1)
+                    for mode in MODES:
+                        if mode and tname in NOT_BATCHABLE:
+                            continue
+                        fr, req = Fresh(), req0.copy()
+                        fr.n = fr0.n
+                        s.take()
+                        case = {'chain': list(chain), 'terminal': ti, 'names': names + [tname]}
+                        if mode:
+                            case['mode'] = mode
+                        label = tname.replace(' alone', '') + ('/' + mode if mode else '')
+                        try:
+                            exp = run_terminal(q0, req, fr, tname, tfn, mode, comp)
+                        except refuse as e:
+                            part.count('refused_by_cqlengine')
+                            part.outcome(('refused', tname, type(e).__name__))
+                            continue
+                        except HarnessError:
+                            raise
+                        except Exception as e:
+                            part.violation('C37/raises/%s/%s' % (label, type(e).__name__),
+                                           '%r (%s) raised %r' % (names + [tname], mode or 'unbatched', e), case)
+                            continue
+                        part.count('chains_in_batch' if mode else 'chains')
+                        calls = s.take()
+                        if mode and len(calls) != 1:
+                            raise HarnessError('batch executed %d statements' % len(calls))
+                        judge(part, label, case, calls, exp)
+                        if mode or len(req.where) + len(req.iff) >= 2:
+                            part.count('distinct_nontrivial')      # every (chain, terminal, mode) is enumerated once
+                        if len(chain) >= 2:
+                            part.sample({'chain': names + [tname], 'mode': mode or 'unbatched', 'statements': [c.query for c in calls],
+                                         'params': [w['cqle'].plain_params(c.params) for c in calls]}, limit=1)
     return part
 
 
@@ -596,6 +643,10 @@ def makers():
             v1, v2 = fr.i(), fr.t()
             e['iff'] = [('a', '=', v1), ('b', '=', v2)]
             inst.iff(a=v1, b=v2)
+        if 'iff2r' in opts:
+            v1, v2 = fr.t(), fr.i()
+            e['iff'] = [('b', '=', v1), ('a', '=', v2)]
+            inst.iff(b=v1, a=v2)
         if 'if_exists' in opts:
             e['if_exists'] = True
             inst.if_exists()
@@ -631,6 +682,18 @@ def makers():
         return [e, d]
     M.append(('inst save collections', inst_update_colls, DML_OPTS))
 
+    def inst_update_nulls(fr, batch, opts):
+        # one column written, two set to null: an UPDATE and a DELETE built from the same conditions
+        inst, vals, where = loaded(fr)
+        b = fr.t()
+        e = dict(kind='UPDATE', set=[('b', 'set', b)], where=where, iff=[], ttl=None, timestamp=None)
+        decorate(inst, fr, batch, opts, e)
+        inst.update(b=b, a=None, s=None)
+        d = dict(kind='DELETE', delete=[('a', None), ('s', None)], where=where, if_exists=e.get('if_exists', False))
+        d['iff_subset'] = e.get('iff', [])
+        return [e, d]
+    M.append(('inst update b, null a s', inst_update_nulls, DML_OPTS + [('iff2r',), ('ttl', 'timestamp', 'iff2r')]))
+
     def inst_delete(fr, batch, opts):
         inst, vals, where = loaded(fr)
         e = dict(kind='DELETE', delete=[], where=where, iff=[], timestamp=None)
@@ -657,6 +720,30 @@ def makers():
         q.update(m__update={k1: x1, k2: x2}, a=a, s__remove={s1})
         return [e]
     M.append(('qs update map2', qs_update, [(), ('ttl',), ('iff2',), ('ttl', 'iff2')]))
+
+    def qs_update_nulls(fr, batch, opts):
+        k, where = keys(fr)
+        q = Q.objects.filter(**k)
+        if batch is not None:
+            q = q.batch(batch)
+        e = dict(kind='UPDATE', where=where, iff=[], ttl=None, timestamp=None)
+        if 'iff2' in opts:
+            v1, v2 = fr.i(), fr.t()
+            e['iff'] = [('a', '=', v1), ('b', '=', v2)]
+            q = q.iff(a=v1, b=v2)
+        if 'iff2r' in opts:
+            v1, v2 = fr.t(), fr.i()
+            e['iff'] = [('b', '=', v1), ('a', '=', v2)]
+            q = q.iff(b=v1, a=v2)
+        if 'if_exists' in opts:
+            e['if_exists'] = True
+            q = q.if_exists()
+        b, l1 = fr.t(), fr.i()
+        e['set'] = [('b', 'set', b), ('l', 'plus', (l1,))]
+        q.update(b=b, a=None, l__append=[l1], m=None)
+        d = dict(kind='DELETE', delete=[('a', None), ('m', None)], where=where, iff_subset=e['iff'], if_exists=e.get('if_exists', False))
+        return [e, d]
+    M.append(('qs update b l, null a m', qs_update_nulls, [(), ('iff2',), ('iff2r',), ('if_exists',)]))
 
     def qs_delete(fr, batch, opts):
         k, where = keys(fr)
@@ -787,11 +874,9 @@ def replay(ctx, data):
             q = A[ai][1](q, req, fr)
         s.take()
         tname, tfn = T[data['terminal']]
-        exp = tfn(q, req, fr)
-        for e_ in exp:
-            if 'set' in e_:
-                e_['set_all_nonempty'] = 'empty' not in tname
-        judge(part, tname.replace(' alone', ''), data, s.take(), exp)
+        mode = data.get('mode')
+        exp = run_terminal(q, req, fr, tname, tfn, mode, companion())
+        judge(part, tname.replace(' alone', '') + ('/' + mode if mode else ''), data, s.take(), exp)
     elif 'dml' in data:
         part = run_dml(('single', [data['dml']]))
     else:
